@@ -604,6 +604,120 @@ impl FdsCase {
         out
     }
 
+    /// `Signals::to_direct_descriptor` (an OWNED conversion: src/io_uring/process.rs:66-101,
+    /// `ToDirectOp<Signals>` + `DirectFdMapper::map`), on a second ring of its own: a real
+    /// `signalfd` descriptor `r`, the FILES_UPDATE answered with `outcome` (`ok` = slot 0 of the
+    /// direct table, `err:<errno>`), then everything is dropped and the second ring torn down.
+    /// Observed: how often `r` was closed (CLOSE submissions + `close(2)`), how often the direct
+    /// slot was released, and whether `r` is still open at the end.
+    fn do_sigdirect(&mut self, outcome: &str) -> Option<Vec<String>> {
+        use a10::process::{Signal, Signals};
+        let errno: Option<i32> = match outcome {
+            "ok" => None,
+            o => {
+                let e: i32 = o.strip_prefix("err:")?.parse().ok()?;
+                if e <= 0 || e >= 4096 || e == libc::EINTR || e == libc::ECANCELED {
+                    return None;
+                }
+                Some(e)
+            }
+        };
+        let pre = simk::drain_events();
+        simk::purge_closed();
+        let rings_before: Vec<i32> = simk::with_sim(|s| s.rings.keys().copied().collect());
+        let mut ring_b = match Ring::config().with_submission_queue_size(8).with_direct_descriptors(4).build() {
+            Ok(r) => r,
+            Err(e) => return Some(vec![format!("sigdirect setup-failed {e}")]),
+        };
+        let Some(rfd_b) = simk::with_sim(|s| s.rings.keys().copied().find(|k| !rings_before.contains(k))) else {
+            let now: Vec<i32> = simk::with_sim(|s| s.rings.keys().copied().collect());
+            return Some(vec![format!("sigdirect no-new-ring before={rings_before:?} now={now:?}")]);
+        };
+        let sq_b = ring_b.sq();
+        let open_fds = || -> Vec<i32> { (3..1024).filter(|fd| raw_fcntl_getfd(*fd) >= 0).collect() };
+        let before = open_fds();
+        let signals = match Signals::from_signals(sq_b.clone(), [Signal::USER2]) {
+            Ok(s) => s,
+            Err(e) => return Some(vec![format!("sigdirect signalfd-failed {e}")]),
+        };
+        let new: Vec<i32> = open_fds().into_iter().filter(|fd| !before.contains(fd)).collect();
+        let [r] = new[..] else { return Some(vec![format!("sigdirect signalfd-count {}", new.len())]) };
+        let _ = simk::drain_events();
+        let waker = util::waker(998);
+        let mut cx = Context::from_waker(&waker);
+        let mut fut = Box::pin(signals.to_direct_descriptor());
+        let first = util::catch(|| fut.as_mut().poll(&mut cx));
+        let _ = ring_b.poll(Some(Duration::ZERO));
+        let inflight = simk::with_ring(rfd_b, |ring, _| ring.inflight.iter().find(|x| x.sqe.opcode == simk::OP_FILES_UPDATE).map(|x| x.sqe));
+        let mut slot: Option<u32> = None;
+        if let Some(sqe) = inflight {
+            let spec = match errno {
+                None => {
+                    simk::with_ring(rfd_b, |ring, _| {
+                        if let Some(f) = ring.files.as_mut() {
+                            f[0] = Some(1);
+                        }
+                    });
+                    unsafe { (sqe.addr as *mut i32).write(0) };
+                    slot = Some(0);
+                    PostSpec::new(Target::UserData(sqe.user_data), 1, 0)
+                }
+                Some(e) => PostSpec::new(Target::UserData(sqe.user_data), -e, 0),
+            };
+            simk::with_ring(rfd_b, |ring, ev| ring.post(&spec, ev));
+        }
+        let _ = ring_b.poll(Some(Duration::ZERO));
+        let second = match first {
+            Ok(Poll::Pending) => util::catch(|| fut.as_mut().poll(&mut cx)),
+            other => other,
+        };
+        let head = match second {
+            Err(_) => "panic".to_string(),
+            Ok(Poll::Pending) => "pending".to_string(),
+            Ok(Poll::Ready(Ok(sig))) => {
+                drop(sig);
+                "ok".to_string()
+            }
+            Ok(Poll::Ready(Err(e))) => format!("err {}", err_num(&e)),
+        };
+        drop(fut);
+        let _ = ring_b.poll(Some(Duration::ZERO));
+        drop(sq_b);
+        drop(ring_b);
+        let mut regular = 0;
+        let mut direct = 0;
+        for e in simk::drain_events() {
+            match e {
+                KEv::CloseReq { fd, direct: false, .. } if fd == r => regular += 1,
+                KEv::CloseFd { fd, .. } if fd == r => regular += 1,
+                KEv::CloseReq { fd, direct: true, .. } if Some(fd as u32) == slot => direct += 1,
+                KEv::Register { op, detail, .. } if (op == simk::REGISTER_FILES_UPDATE || op == simk::REGISTER_FILES_UPDATE2) && slot.is_some() && detail.contains("slot0:=-1") => direct += 1,
+                _ => {}
+            }
+        }
+        let still_open = raw_fcntl_getfd(r) >= 0;
+        if still_open {
+            unsafe { simk::raw_syscall(libc::SYS_close, r as i64, 0, 0, 0, 0, 0) };
+        }
+        let _ = util::drain_wakes();
+        // the events of this component's own ring that were pending are not lost
+        simk::with_sim(|sim| {
+            let mut keep = pre;
+            keep.append(&mut sim.events);
+            sim.events = keep;
+        });
+        self.feats.push(format!("signals-to-direct/{}", if errno.is_some() { "err" } else { "ok" }));
+        let want_direct = if errno.is_none() { 1 } else { 0 };
+        if regular != 1 || still_open {
+            let what = format!("Signals::to_direct_descriptor ({outcome}): the signalfd descriptor {r} was closed {regular} times{}", if still_open { " and is still open after everything was dropped" } else { "" });
+            self.fail(&format!("C07/{}/signals", if regular > 1 { "closed-twice" } else { "never-closed" }), what);
+        }
+        if direct != want_direct {
+            self.fail("C07/direct-release/signals", format!("Signals::to_direct_descriptor ({outcome}): the direct slot was released {direct} times, expected {want_direct}"));
+        }
+        Some(vec![format!("sigdirect {head} regular-closes={regular} direct-releases={direct} regular-open={}", u8::from(still_open))])
+    }
+
     fn exec_inner(&mut self, op: &str) -> Vec<String> {
         let t: Vec<&str> = op.split(' ').collect();
         let mut out: Vec<String> = Vec::new();
@@ -1005,6 +1119,12 @@ impl FdsCase {
                     out.push(if done { format!("posted {}", raws.iter().map(|r| key(k, *r)).collect::<Vec<_>>().join(",")) } else { "panic".into() });
                 }
             }
+            ["fds", "sigdirect", outcome] => {
+                out = match self.do_sigdirect(outcome) {
+                    Some(l) => l,
+                    None => return bad(),
+                };
+            }
             ["fds", "rpoll"] => {
                 out = self.do_rpoll();
             }
@@ -1144,6 +1264,14 @@ impl Case for FdsCase {
                 return Some(format!("fds dropop {i}"));
             }
             return Some(self.gen_pipe2_poll(rng, i));
+        }
+        // an owned conversion on a ring of its own (Signals::to_direct_descriptor)
+        if rng.chance(1, 40) {
+            let o = match rng.below(4) {
+                0 | 1 => "ok".to_string(),
+                _ => format!("err:{}", *rng.pick(&[libc::ENXIO, libc::ENFILE, libc::EINVAL, libc::EBADF, libc::ENOMEM, libc::EMFILE])),
+            };
+            return Some(format!("fds sigdirect {o}"));
         }
         let inflight: Vec<usize> = simk::with_ring(self.rfd, |r, _| {
             (0..self.ops.len())
